@@ -457,6 +457,8 @@ func (cc *Conn) do(req *pool.Message) (*pool.Message, error) {
 
 // DoObserve subscribes for every change with request.
 func (cc *Conn) doObserve(req *pool.Message, observeFunc func(req *pool.Message)) (client.Observation, error) {
+	// NewObservation waits for the first response: when called from a handler, let another loop read it.
+	cc.receivedMessageReader.TryToReplaceLoop()
 	return cc.observationHandler.NewObservation(req, observeFunc)
 }
 
